@@ -214,7 +214,8 @@ def run_case(case):
                 phases = gen.gen_history(rng, spec, nphase=rng.randint(0, 2))
                 cfgs = [{"njob": rng.choice([1, 2, 3, 4]),
                          "resources": rng.choice(["cpu:2,gpu:2", "cpu:2,gpu:1", "cpu:3", "cpu:1,gpu:1", None]),
-                         "keep_going": rng.random() < 0.3}
+                         "keep_going": rng.random() < 0.3,
+                         **({"thread_delay": {"p": rng.choice([0.3, 1.0]), "max": 0.02, "seed": rng.randrange(1 << 30)}} if rng.random() < 0.3 else {})}
                         for _ in range(len(phases) + 1)]
             witness.update({"spec": spec, "configs": cfgs})
             files = gen.render(spec)
